@@ -314,8 +314,12 @@ func (o *optimizer) etaReduction() {
 			}
 		}
 
+		// only the files using the api are in sight of optimizer,
+		// type declared in other file of the package is invalid, and all invalid types are identical
 		litTy, funTy := ctx.TypeOf(lit), ctx.TypeOf(fun)
-		return litTy != nil && funTy != nil && types.Identical(litTy, funTy)
+		return litTy != nil && funTy != nil &&
+			!hasInvalidType(litTy) && !hasInvalidType(funTy) &&
+			types.Identical(litTy, funTy)
 	}
 
 	o.m.Match(
@@ -329,4 +333,43 @@ func (o *optimizer) etaReduction() {
 			}
 		},
 	)
+}
+
+func hasInvalidType(ty types.Type) bool {
+	switch ty := ty.(type) {
+	case *types.Basic:
+		return ty.Kind() == types.Invalid
+	case *types.Pointer:
+		return hasInvalidType(ty.Elem())
+	case *types.Slice:
+		return hasInvalidType(ty.Elem())
+	case *types.Array:
+		return hasInvalidType(ty.Elem())
+	case *types.Chan:
+		return hasInvalidType(ty.Elem())
+	case *types.Map:
+		return hasInvalidType(ty.Key()) || hasInvalidType(ty.Elem())
+	case *types.Signature:
+		return hasInvalidType(ty.Params()) || hasInvalidType(ty.Results())
+	case *types.Tuple:
+		for i := 0; i < ty.Len(); i++ {
+			if hasInvalidType(ty.At(i).Type()) {
+				return true
+			}
+		}
+	case *types.Struct:
+		for i := 0; i < ty.NumFields(); i++ {
+			if hasInvalidType(ty.Field(i).Type()) {
+				return true
+			}
+		}
+	case *types.Named:
+		// generic type instantiated with type declared in other file, e.g., Iterator[T]
+		for i := 0; i < ty.TypeArgs().Len(); i++ {
+			if hasInvalidType(ty.TypeArgs().At(i)) {
+				return true
+			}
+		}
+	}
+	return false
 }
